@@ -1,5 +1,252 @@
+(* C11 - TriggerVariable waits end only on their event, and the event wakes them.
+   Statements only; every proof is `exact <lemma>` into Proofs/TriggerProofs.v.
+   All theorems quantify over the constructor's `active` flag a0, any number of threads with any programs
+   over the nine API operations, and every schedule (spurious wake-ups = choice 1, time-outs = choice 2).
+
+   Ghost vocabulary (Model/TriggerModel.v): every step has a stamp (the value of the global step counter
+   [now]); clear_stamp / trig_stamp / act_stamp / deact_stamp are the stamps of the last triggered=false /
+   triggered=true / activated=true / activated=false store; act_clear is the stamp of the triggered=false
+   store made by the activate() call that made the last activated=true store; rexit_stamp is the stamp of
+   the last load of triggered=true that ended the loop of a reset(); per thread, sclr is the value of
+   act_clear at the step where its wait()/wait_for() read activated = true, fslp / slp are the stamps of the
+   first / latest cv sleep of its current call. *)
 From Coq Require Import List Arith ZArith Lia Bool.
 Import ListNotations.
 From GV Require Import Sched Events TriggerModel TriggerProofs.
-Local Open Scope Z_scope.
-Theorem tv_placeholder : True. Proof. exact placeholder. Qed.
+
+(* ------------------------------------------------------------------ safety *)
+
+(* wait() / wait_for() returning true: either the returning step itself read activated = false (the variable
+   was inactive), or triggered is true at the return and the last triggered=true store lies after the last
+   triggered=false store, which is not older than the clear of the activation this call observed:
+   a trigger() or reset() followed that activation. *)
+Theorem tv_wait_safe : forall a0 progs s t c l g' l' es,
+  R a0 progs s -> nth_error (thr s) t = Some l ->
+  cur_op (at_ l) = Some Wait \/ cur_op (at_ l) = Some WaitFor ->
+  tstep t c (gl s) l = Some (g', l', es) -> In (ret_ev 1%Z) es ->
+  (activated (gl s) = false /\ exists tm, at_ l = W_load tm) \/
+  (triggered (gl s) = true /\ sclr l <= clear_stamp (gl s) /\
+   clear_stamp (gl s) < trig_stamp (gl s) /\ trig_stamp (gl s) < now (gl s)).
+Proof. exact wait_safe. Qed.
+
+(* what sclr is: the step of wait()/wait_for() that reads activated = true records the clear stamp of the
+   activation it read *)
+Theorem tv_wait_observes : forall t c g l g' l' es tm,
+  at_ l = W_load tm -> activated g = true -> tstep t c g l = Some (g', l', es) ->
+  at_ l' = W_lock tm /\ sclr l' = act_clear g.
+Proof. exact wait_observes. Qed.
+
+(* ... and that clear really precedes the activated=true store of the same activate() call; triggered is true
+   exactly when the last triggered=true store is younger than the last clear *)
+Theorem tv_stamps : forall a0 progs s, R a0 progs s ->
+  act_clear (gl s) <= clear_stamp (gl s) /\
+  (0 < act_stamp (gl s) -> 0 < act_clear (gl s) < act_stamp (gl s)) /\
+  (act_stamp (gl s) = 0 -> act_clear (gl s) = 0 /\ nact (gl s) = 0) /\
+  (triggered (gl s) = true <-> clear_stamp (gl s) < trig_stamp (gl s)).
+Proof. exact act_clear_facts. Qed.
+
+(* waitActivation() returns, and wait_forActivation() returns true, only with activated = true at the moment of
+   the return (so an activated=true store, or the constructor, precedes); wait_forActivation() returns false
+   only with activated = false at that moment (tv_timed_false, activation side); waitActivation() never gives up *)
+Theorem tv_waitActivation_safe : forall a0 progs s t c l g' l' es v,
+  R a0 progs s -> nth_error (thr s) t = Some l ->
+  cur_op (at_ l) = Some WaitActivation \/ cur_op (at_ l) = Some WaitForActivation ->
+  tstep t c (gl s) l = Some (g', l', es) -> In (ret_ev v) es ->
+  exists tm r, at_ l = V_unlock tm r /\ v = v_ret tm r /\ activated (gl s) = r /\
+               (r = false -> tm = true /\ (act_stamp (gl s) = 0 \/ act_stamp (gl s) < deact_stamp (gl s))) /\
+               (r = true -> 0 < act_stamp (gl s) \/ a0 = true).
+Proof. exact waitActivation_safe. Qed.
+
+(* wait_for() returns false only with triggered = false at the moment of the return: no trigger store since the
+   last clear; wait() never returns false *)
+Theorem tv_timed_false : forall a0 progs s t c l g' l' es,
+  R a0 progs s -> nth_error (thr s) t = Some l ->
+  cur_op (at_ l) = Some Wait \/ cur_op (at_ l) = Some WaitFor ->
+  tstep t c (gl s) l = Some (g', l', es) -> In (ret_ev 0%Z) es ->
+  cur_op (at_ l) = Some WaitFor /\ triggered (gl s) = false /\
+  (trig_stamp (gl s) = 0 \/ trig_stamp (gl s) < clear_stamp (gl s)).
+Proof. exact timed_false. Qed.
+
+(* trigger() returns false exactly when its (single) load reads activated = false; that call consists of this
+   one step, which changes nothing but the ghost clock *)
+Theorem tv_trigger_inactive : forall t c g l g' l' es,
+  cur_op (at_ l) = Some Trigger -> tstep t c g l = Some (g', l', es) ->
+  (In (ret_ev 0%Z) es <-> at_ l = T_load Top /\ activated g = false) /\
+  (In (ret_ev 0%Z) es -> g' = tick g /\ at_ l' = Idle /\ es = [ESC K_LOAD O_ACT 0%Z; ret_ev 0%Z]) /\
+  (In (ret_ev 1%Z) es -> at_ l = T_unlock Top).
+Proof. exact trigger_inactive. Qed.
+
+(* the variable is inactive at the moment reset() returns.  No proviso is needed for this instant: the only
+   activated=true store is made under activeLock, which the returning reset() still owns.  (A concurrent
+   activate() that is already past its own check can of course re-activate right afterwards.) *)
+Theorem tv_reset_inactive : forall a0 progs s t c l g' l' es v,
+  R a0 progs s -> nth_error (thr s) t = Some l -> cur_op (at_ l) = Some Reset ->
+  tstep t c (gl s) l = Some (g', l', es) -> In (ret_ev v) es ->
+  at_ l = R_unlock /\ activated (gl s) = false /\ activated g' = false.
+Proof. exact reset_inactive. Qed.
+
+(* ------------------------------------------------------------------ liveness *)
+
+(* no lost wake-up, every reachable state: a sleeper on cv_trigger still un-notified although triggered is true,
+   or although a triggered=true store (by trigger() or by the trigger() inside reset()) or a reset loop exit
+   happened since it went to sleep, has its notifier standing right before notify_all with triggerLock held,
+   and that thread can move *)
+Theorem tv_wake_pending_trigger : forall a0 progs s u,
+  R a0 progs s -> In u (slT (gl s)) ->
+  triggered (gl s) = true \/ slp (locof (thr s) u) <= trig_stamp (gl s) \/ slp (locof (thr s) u) <= rexit_stamp (gl s) ->
+  exists a, mT (gl s) = Some a /\ is_Tnotify (pcof (thr s) a) = true /\ enabled glob loc tstep s a 0.
+Proof. exact wake_pending_T. Qed.
+
+Theorem tv_wake_pending_activate : forall a0 progs s u,
+  R a0 progs s -> In u (slA (gl s)) ->
+  activated (gl s) = true \/ slp (locof (thr s) u) <= act_stamp (gl s) ->
+  exists a, mA (gl s) = Some a /\ is_Anotify (pcof (thr s) a) = true /\ enabled glob loc tstep s a 0.
+Proof. exact wake_pending_A. Qed.
+
+(* a notified sleeper is not stuck: it can re-acquire its mutex, or the owner of that mutex can move *)
+Theorem tv_notified_moves : forall a0 progs s t l tm,
+  R a0 progs s -> nth_error (thr s) t = Some l ->
+  (at_ l = W_woken tm /\ ~ In t (slT (gl s))) \/ (at_ l = V_woken tm /\ ~ In t (slA (gl s))) ->
+  exists b, enabled glob loc tstep s b 0.
+Proof. exact notified_moves. Qed.
+
+Theorem tv_mutex_holder_moves_T : forall a0 progs s a c,
+  R a0 progs s -> mT (gl s) = Some a -> enabled glob loc tstep s a c.
+Proof. exact holderT_enabled. Qed.
+Theorem tv_mutex_holder_moves_A : forall a0 progs s a c,
+  R a0 progs s -> mA (gl s) = Some a -> enabled glob loc tstep s a c.
+Proof. exact holderA_enabled. Qed.
+
+(* activate(), trigger(), reset(), isTriggered(), isActive() never wait for an event: a thread that cannot move
+   is finished, waits for a mutex whose owner can move, or sleeps un-notified inside one of the four waits *)
+Theorem tv_blocking_shape : forall a0 progs s t l,
+  R a0 progs s -> nth_error (thr s) t = Some l -> tstep t 0 (gl s) l = None ->
+  fin l = true \/
+  (exists a, (mT (gl s) = Some a \/ mA (gl s) = Some a) /\ a <> t /\ enabled glob loc tstep s a 0) \/
+  (is_Wwoken (at_ l) = true /\ In t (slT (gl s))) \/ (is_Vwoken (at_ l) = true /\ In t (slA (gl s))).
+Proof. exact disabled_shape. Qed.
+
+(* when nothing can move any more (except by a spurious wake-up), every thread has finished, or sleeps in wait()
+   with triggered = false and no triggered=true store and no reset loop exit since it went to sleep, or sleeps in
+   waitActivation() with activated = false and no activated=true store since it went to sleep *)
+Theorem tv_deadlock_shape : forall a0 progs s t l,
+  R a0 progs s -> quiescent glob loc tstep s -> nth_error (thr s) t = Some l ->
+  fin l = true \/
+  (at_ l = W_woken false /\ In t (slT (gl s)) /\ triggered (gl s) = false /\
+   trig_stamp (gl s) < slp l /\ rexit_stamp (gl s) < slp l) \/
+  (at_ l = V_woken false /\ In t (slA (gl s)) /\ activated (gl s) = false /\ act_stamp (gl s) < slp l).
+Proof. exact quiescent_shape. Qed.
+
+(* trigger() / reset() release the threads blocked in wait(), with the property's proviso made explicit:
+   if a thread is still blocked in wait() when nothing moves, then every triggered=true store made after it first
+   went to sleep - by a trigger() or forced by a reset() - and every reset() loop exit after that point, was
+   followed by a triggered=false store: the variable was re-activated while the thread was still blocked. *)
+Theorem tv_no_lost_wakeup_trigger : forall a0 progs s t l,
+  R a0 progs s -> quiescent glob loc tstep s -> nth_error (thr s) t = Some l -> is_Wwoken (at_ l) = true ->
+  0 < fslp l /\
+  (fslp l < trig_stamp (gl s) -> trig_stamp (gl s) < clear_stamp (gl s)) /\
+  (fslp l < rexit_stamp (gl s) -> rexit_stamp (gl s) < clear_stamp (gl s)).
+Proof. exact no_lost_wakeup_trigger. Qed.
+Theorem tv_no_lost_wakeup_reset : forall a0 progs s t l,
+  R a0 progs s -> quiescent glob loc tstep s -> nth_error (thr s) t = Some l -> is_Wwoken (at_ l) = true ->
+  0 < fslp l /\
+  (fslp l < trig_stamp (gl s) -> trig_stamp (gl s) < clear_stamp (gl s)) /\
+  (fslp l < rexit_stamp (gl s) -> rexit_stamp (gl s) < clear_stamp (gl s)).
+Proof. exact no_lost_wakeup_trigger. Qed.
+
+(* the same as "every waiter has returned": without a re-activation since the trigger (triggered still true),
+   a state in which nothing moves has no thread inside wait() / wait_for() *)
+Theorem tv_trigger_releases : forall a0 progs s t l,
+  R a0 progs s -> quiescent glob loc tstep s -> triggered (gl s) = true -> nth_error (thr s) t = Some l ->
+  cur_op (at_ l) <> Some Wait /\ cur_op (at_ l) <> Some WaitFor.
+Proof. exact trigger_releases. Qed.
+
+(* activate() releases the threads blocked in waitActivation() PROVIDED NO reset() DEACTIVATES THE VARIABLE BEFORE
+   THEY HAVE RE-TESTED IT: a thread still blocked when nothing moves, although an activated=true store was made
+   after it first went to sleep, has seen that activation undone by a later activated=false store.
+   This proviso is NOT in the property's statement (which only excludes re-activation) and it is needed:
+
+   Theorem tv_no_lost_wakeup_activate (as the property states it, FALSE for the code):
+     R a0 progs s -> quiescent s -> is_Vwoken (at_ l) = true -> fslp l < act_stamp (gl s) -> nact (gl s) > 1
+
+   see tv_no_lost_wakeup_activate_refuted below. *)
+Theorem tv_no_lost_wakeup_activate_partial : forall a0 progs s t l,
+  R a0 progs s -> quiescent glob loc tstep s -> nth_error (thr s) t = Some l -> is_Vwoken (at_ l) = true ->
+  0 < fslp l /\ (fslp l < act_stamp (gl s) -> act_stamp (gl s) < deact_stamp (gl s)).
+Proof. exact no_lost_wakeup_activate. Qed.
+
+Theorem tv_activate_releases : forall a0 progs s t l,
+  R a0 progs s -> quiescent glob loc tstep s -> activated (gl s) = true -> nth_error (thr s) t = Some l ->
+  cur_op (at_ l) <> Some WaitActivation /\ cur_op (at_ l) <> Some WaitForActivation.
+Proof. exact activate_releases. Qed.
+
+(* witness: [[waitActivation]; [activate; reset]]: the waiter sleeps, the other thread activates (returns true) and
+   resets, the waiter wakes, finds activated = false and sleeps for ever; exactly one activation ever happened *)
+Theorem tv_no_lost_wakeup_activate_refuted :
+  exists a0 progs sched t l,
+    let s := run glob loc tstep (init a0 progs) sched in
+    quiescent glob loc tstep s /\ nth_error (thr s) t = Some l /\ at_ l = V_woken false /\ In t (slA (gl s)) /\
+    0 < fslp l /\ fslp l < act_stamp (gl s) /\ nact (gl s) = 1 /\ activated (gl s) = false.
+Proof. exact activate_release_unconditional_refuted. Qed.
+
+(* ------------------------------------------------------------------ non-vacuity *)
+Notation runT := (run glob loc tstep).
+
+(* activate; trigger on thread 0, a waiter on thread 1 that sleeps before the trigger and is about to return *)
+Definition ex_progs := [[Activate; Trigger]; [Wait]].
+Definition ex_sched : list (nat * nat) := repeat (0, 0) 9 ++ repeat (1, 0) 6 ++ repeat (0, 0) 6 ++ repeat (1, 0) 2.
+Definition ex_state := runT (init false ex_progs) ex_sched.
+Example ex_wait_returns :
+  exists l, nth_error (thr ex_state) 1 = Some l /\ cur_op (at_ l) = Some Wait /\
+            (exists r, tstep 1 0 (gl ex_state) l = Some r /\ In (ret_ev 1%Z) (snd r)) /\
+            0 < sclr l /\ sclr l = clear_stamp (gl ex_state) /\ fslp l < trig_stamp (gl ex_state).
+Proof. vm_compute. eexists. split; [reflexivity|]. split; [reflexivity|]. split; [eexists; split; [reflexivity|cbn; auto]|lia]. Qed.
+
+(* the sleeping waiter in the middle of that run: un-notified, triggered false *)
+Example ex_sleeper :
+  let s := runT (init false ex_progs) (repeat (0, 0) 9 ++ repeat (1, 0) 6) in
+  In 1 (slT (gl s)) /\ triggered (gl s) = false /\ is_Wwoken (pcof (thr s) 1) = true.
+Proof. vm_compute. auto. Qed.
+
+(* wait_for on an active, untriggered variable: the time-out fires and the call is about to return false *)
+Example ex_timed_false :
+  let s := runT (init true [[WaitFor]]) (repeat (0, 0) 6 ++ [(0, 2); (0, 0)]) in
+  exists l, nth_error (thr s) 0 = Some l /\ cur_op (at_ l) = Some WaitFor /\
+            exists r, tstep 0 0 (gl s) l = Some r /\ In (ret_ev 0%Z) (snd r).
+Proof. vm_compute. eexists. split; [reflexivity|]. split; [reflexivity|]. eexists; split; [reflexivity|cbn; auto]. Qed.
+
+(* waitActivation released by activate *)
+Example ex_waitActivation_returns :
+  let s := runT (init false [[WaitActivation]; [Activate]]) (repeat (0, 0) 5 ++ repeat (1, 0) 9 ++ repeat (0, 0) 2) in
+  exists l, nth_error (thr s) 0 = Some l /\ at_ l = V_unlock false true /\ activated (gl s) = true /\
+            exists r, tstep 0 0 (gl s) l = Some r /\ In (ret_ev 0%Z) (snd r).
+Proof. vm_compute. eexists. split; [reflexivity|]. split; [reflexivity|]. split; [reflexivity|]. eexists; split; [reflexivity|cbn; auto]. Qed.
+
+(* reset() on an active, untriggered variable forces the trigger and is about to return with the variable inactive *)
+Example ex_reset_returns :
+  let s := runT (init true [[Reset]]) (repeat (0, 0) 13) in
+  exists l, nth_error (thr s) 0 = Some l /\ at_ l = R_unlock /\ activated (gl s) = false /\ triggered (gl s) = true /\
+            0 < rexit_stamp (gl s).
+Proof. vm_compute. eexists. split; [reflexivity|]. repeat split; auto. lia. Qed.
+
+(* trigger() on an inactive variable *)
+Example ex_trigger_inactive :
+  let s := runT (init false [[Trigger]]) [(0, 0)] in
+  exists l r, nth_error (thr s) 0 = Some l /\ tstep 0 0 (gl s) l = Some r /\ In (ret_ev 0%Z) (snd r).
+Proof. vm_compute. eexists; eexists. split; [reflexivity|]. split; [reflexivity|cbn; auto]. Qed.
+
+(* the proviso of tv_no_lost_wakeup_trigger is met by a reachable deadlock: a concurrent second activate() (thread 0,
+   which read activated = false before thread 1 activated) clears triggered after thread 3's successful trigger();
+   the waiter (thread 2) is woken, finds triggered = false and sleeps for ever *)
+Definition ex2_progs := [[Activate]; [Activate]; [Wait]; [Trigger]].
+Definition ex2_sched : list (nat * nat) :=
+  repeat (0, 0) 2 ++ repeat (1, 0) 9 ++ repeat (2, 0) 6 ++ repeat (3, 0) 6 ++ repeat (0, 0) 7 ++ repeat (2, 0) 3.
+Example ex_reactivated_while_blocked :
+  let s := runT (init false ex2_progs) ex2_sched in
+  quiescent glob loc tstep s /\
+  exists l, nth_error (thr s) 2 = Some l /\ is_Wwoken (at_ l) = true /\
+            fslp l < trig_stamp (gl s) /\ trig_stamp (gl s) < clear_stamp (gl s) /\ nact (gl s) = 2.
+Proof.
+  cbn zeta. split; [apply qcheck_quiescent; vm_compute; reflexivity|].
+  vm_compute. eexists. split; [reflexivity|]. repeat split; auto; lia.
+Qed.
